@@ -84,6 +84,8 @@ static int nthreads = 1;
  * progress (its own writes / fiber switches do not count: a thread ping-ponging between two
  * polling fibers is still only polling) */
 static uint64_t spin_epoch[MAXT];
+static uint64_t unreg_run[MAXT]; /* plain accesses to unregistered memory since the last scheduling point */
+#define UNREG_LIMIT 2000000
 static uint64_t epoch = 1;
 static uint64_t own_progress[MAXT];
 #define PROGRESS() do { epoch++; if (my_tid >= 0) own_progress[my_tid]++; } while (0)
@@ -691,7 +693,19 @@ static inline void plain(void* addr, int size, int is_write) {
   int t = my_tid;
   if (pend[t] >= 0) complete_pending(t);
   int c = ncell ? find_cell((uintptr_t)addr, size) : -1;
-  if (c < 0) return;
+  if (c < 0) {
+    /* a thread that runs for millions of accesses without touching a registered cell (a polling
+     * loop over unregistered state, e.g. a join that spins on a fiber of a harness that registers
+     * nothing) would keep the baton for ever: give the others a turn */
+    if (++unreg_run[t] > UNREG_LIMIT) {
+      unreg_run[t] = 0;
+      in_rt = 1;
+      sp(1, 0);
+      in_rt = 0;
+    }
+    return;
+  }
+  unreg_run[t] = 0;
   in_rt = 1;
   sp(0, 0);
   ev_t* e = newev(is_write ? K_W : K_R, c, (uintptr_t)addr, size);
